@@ -24,8 +24,11 @@ import (
 	"github.com/pojntfx/stfs/internal/logging"
 	"github.com/pojntfx/stfs/pkg/cache"
 	"github.com/pojntfx/stfs/pkg/config"
+	"github.com/pojntfx/stfs/pkg/encryption"
 	"github.com/pojntfx/stfs/pkg/operations"
 	"github.com/pojntfx/stfs/pkg/persisters"
+	"github.com/pojntfx/stfs/pkg/recovery"
+	"github.com/pojntfx/stfs/pkg/signature"
 	"github.com/pojntfx/stfs/pkg/tape"
 	"github.com/spf13/afero"
 )
@@ -482,6 +485,157 @@ func modelForeign(t *testing.T) {
 	}
 }
 
+// modelReplayInto replays the whole tape `drive` into the index of `f` without wiping it (what C07 quantifies over).
+func modelReplayInto(f *STFS, drive string) error {
+	ro := f.readOps
+	reader, err := ro.GetBackend().GetReader()
+	if err != nil {
+		return err
+	}
+	defer ro.GetBackend().CloseReader()
+	return recovery.Index(reader, ro.GetBackend().MagneticTapeIO, ro.GetMetadata(), ro.GetPipes(), ro.GetCrypto(), 0, 0, false, false, 0,
+		func(hdr *tar.Header, i int) error {
+			return encryption.DecryptHeader(hdr, ro.GetPipes().Encryption, ro.GetCrypto().Identity)
+		},
+		func(hdr *tar.Header, isRegular bool) error {
+			return signature.VerifyHeader(hdr, isRegular, ro.GetPipes().Signature, ro.GetCrypto().Recipient)
+		},
+		func(*config.Header) {})
+}
+
+// modelReindex: for every scripted and random history and every prefix of its tape (cut after a step's archive), the
+// index rebuilt from that prefix (the live index for the whole tape) receives a replay of the WHOLE tape without being
+// wiped; this must report no error and show the tree a from-scratch rebuild shows; a second replay changes nothing.
+func modelReindex(t *testing.T) {
+	hs := modelHistories()
+	for n, h := range modelRandomHistories() {
+		hs[n] = h
+	}
+	var names []string
+	for n := range hs {
+		names = append(names, n)
+	}
+	sort.Strings(names)
+	for _, hn := range names {
+		dir := t.TempDir()
+		drive := filepath.Join(dir, "drive.tar")
+		live := modelOpen(t, dir, drive, filepath.Join(dir, "index.sqlite"))
+		var cuts []int64
+		var done []string
+		for _, st := range hs[hn] {
+			st.run(live)
+			done = append(done, st.name)
+			if fi, err := os.Stat(drive); err == nil && (len(cuts) == 0 || cuts[len(cuts)-1] != fi.Size()) {
+				cuts = append(cuts, fi.Size())
+			}
+		}
+		full, err := os.ReadFile(drive)
+		if err != nil {
+			t.Fatal(err)
+		}
+		d0 := filepath.Join(dir, "scratch")
+		os.MkdirAll(d0, 0o755)
+		scratch, _ := modelTree(modelOpen(t, d0, drive, filepath.Join(d0, "index.sqlite")), true, true)
+		// prefixes: a few cut points spread over the history plus the live index itself
+		pick := map[int]bool{len(cuts) - 1: true}
+		for _, k := range []int{0, len(cuts) / 3, 2 * len(cuts) / 3} {
+			if k >= 0 && k < len(cuts) {
+				pick[k] = true
+			}
+		}
+		for k := range pick {
+			if k < 0 {
+				continue
+			}
+			dk := filepath.Join(dir, fmt.Sprintf("prefix%d", k))
+			os.MkdirAll(dk, 0o755)
+			pdrive := filepath.Join(dk, "drive.tar")
+			if err := os.WriteFile(pdrive, full[:cuts[k]], 0o644); err != nil {
+				t.Fatal(err)
+			}
+			// index of the prefix, then the tape grows to its full length under it
+			inst := modelOpen(t, dk, pdrive, filepath.Join(dk, "index.sqlite"))
+			if err := os.WriteFile(pdrive, full, 0o644); err != nil {
+				t.Fatal(err)
+			}
+			what := fmt.Sprintf("history %s, index reflecting the first %d of %d bytes of the tape", hn, cuts[k], len(full))
+			for round := 1; round <= 2; round++ {
+				if err := modelReplayInto(inst, pdrive); err != nil {
+					t.Errorf("FAILING-INPUT: %s: replay %d of the whole tape without wiping reports %v; history: %s", what, round, err, strings.Join(done, "; "))
+					break
+				}
+				got, err := modelTree(inst, true, true)
+				if err != nil {
+					t.Errorf("FAILING-INPUT: %s: after replay %d: walking: %v; history: %s", what, round, err, strings.Join(done, "; "))
+					break
+				}
+				if d := modelDiff(got, scratch); len(d) > 0 {
+					t.Errorf("FAILING-INPUT: %s: after replay %d the tree differs from a rebuild from scratch (stfs=replayed, reference=scratch): %s; history: %s", what, round, strings.Join(d, " | "), strings.Join(done, "; "))
+					break
+				}
+			}
+		}
+	}
+}
+
+// modelConcurrent: several client goroutines use one instance at once (shared and disjoint paths); run under -race by
+// the replay. Every call must return (watchdog), no data race may be reported, and the final tree must be reproducible
+// from the tape.
+func modelConcurrent(t *testing.T) {
+	dir := t.TempDir()
+	drive := filepath.Join(dir, "drive.tar")
+	real := modelOpen(t, dir, drive, filepath.Join(dir, "index.sqlite"))
+	real.Mkdir("/shared", 0o755)
+	clients := 4
+	doneCh := make(chan int, clients)
+	for c := 0; c < clients; c++ {
+		go func(c int) {
+			defer func() { doneCh <- c }()
+			own := fmt.Sprintf("/c%d", c)
+			real.Mkdir(own, 0o755)
+			for i := 0; i < 4; i++ {
+				name := fmt.Sprintf("%s/f%d", own, i)
+				stWrite(name, strings.Repeat("x", 100+c*10+i)).run(real)
+				stWrite(fmt.Sprintf("/shared/s%d", i), fmt.Sprintf("client %d round %d", c, i)).run(real)
+				if f, err := real.Open(name); err == nil {
+					io.ReadAll(f)
+					f.Close()
+				}
+				if d, err := real.Open("/shared"); err == nil {
+					d.Readdirnames(-1)
+					d.Close()
+				}
+				real.Chmod(name, 0o600)
+				real.Rename(name, name+".moved")
+				if i%2 == 1 {
+					real.Remove(name + ".moved")
+				}
+				real.Stat("/shared")
+			}
+		}(c)
+	}
+	for c := 0; c < clients; c++ {
+		select {
+		case <-doneCh:
+		case <-time.After(90 * time.Second):
+			t.Fatalf("FAILING-INPUT: %d concurrent clients (create/write/close, read, list, chmod, rename, remove on own and shared paths): a client did not finish within 90 s (a call does not return)", clients)
+		}
+	}
+	ta, err := modelTree(real, true, true)
+	if err != nil {
+		t.Errorf("FAILING-INPUT: concurrent clients: walking the final tree: %v", err)
+	}
+	d2 := filepath.Join(dir, "rebuild")
+	os.MkdirAll(d2, 0o755)
+	tb, err := modelTree(modelOpen(t, d2, drive, filepath.Join(d2, "index.sqlite")), true, true)
+	if err != nil {
+		t.Errorf("FAILING-INPUT: concurrent clients: walking the rebuilt tree: %v", err)
+	}
+	if d := modelDiff(ta, tb); len(d) > 0 {
+		t.Errorf("FAILING-INPUT: concurrent clients: the final state is not reproducible from the tape (stfs=running, reference=rebuilt): %s", strings.Join(d, " | "))
+	}
+}
+
 // modelKnownDifference: outcome differences between stfs and the OS filesystem that exist on the unchanged tree and
 // are not part of any listed property (error-vs-success only; tree differences are never filtered).
 func modelKnownDifference(history, step string) bool {
@@ -503,6 +657,14 @@ func TestVerifReplay_Model(t *testing.T) {
 	}
 	if mode == "foreign" {
 		modelForeign(t)
+		return
+	}
+	if mode == "reindex" {
+		modelReindex(t)
+		return
+	}
+	if mode == "concurrent" {
+		modelConcurrent(t)
 		return
 	}
 	hs := modelHistories()
